@@ -1,2 +1,4 @@
+pub mod c03;
+pub mod c08;
 pub mod c19;
 pub mod c20;
